@@ -111,6 +111,10 @@ func (p *Provider) runFullScan(ctx context.Context) error {
 		if err != nil {
 			if errors.Is(err, decoders.ErrAmmoLimit) || errors.Is(err, decoders.ErrPassLimit) {
 				err = nil
+				if delivered == 0 && len(p.Config.ChosenCases) > 0 {
+					// No entry of the file is chosen: the same outcome as with preload.
+					err = decoders.ErrNoAmmo
+				}
 			}
 			return err
 		}
